@@ -106,7 +106,7 @@ def run_over(ctx, raw, vers):
             ctx.violation("correspondence:O-ver", "model and real get_versioned_schema(%r, %r) disagree: %s" % (v, n, what),
                           {"version": v, "schema_name": n}, no_input=True)
         # hunter: the exported schema is the declaratively pruned one (root map is the property's observation point)
-        if n == "map" and r[0] == "ok":
+        if n == "map" and r[0] == "ok" and (not v or 0 <= v <= 1000):
             want = vg.spec_prune(raw, raw["map.json"], v if v else None)
             d = tree_diff(uncanon(r[1]), json.loads(json.dumps(want)))
             if d:
@@ -214,7 +214,7 @@ def run_entries(ctx, raw, gen):
                           % (eid, [k for k, _, _ in cx], v, "accepts" if got else "rejects", "accepts" if want else "rejects", vg.annotation(node)),
                           {"kind": "entry", "doc": json.loads(json.dumps(doc)), "version": v, "expected_accept": want, "entry": eid})
     # history independence: the same questions on fresh Validators
-    n_fresh = ctx.budget(250, len(calls))
+    n_fresh = ctx.budget(120, len(calls))
     idx = ctx.rng.sample(range(len(calls)), min(n_fresh, len(calls)))
     n_hist_bad = 0
     for i in idx:
@@ -310,7 +310,7 @@ def gen_history(rng, docs):
     ops = []
     for _ in range(rng.randint(3, 10)):
         k = rng.choice(["validate", "validate", "versioned", "versioned", "expanded"])
-        name = rng.choice(HNAMES) if rng.random() < 0.5 else "map"
+        name = rng.choice(HNAMES) if rng.random() < 0.75 else "map"
         v = rng.choice(HVERS)
         if k == "validate":
             name = "map" if rng.random() < 0.8 else name
@@ -380,11 +380,22 @@ def model_op(o, chunk):
     return ("exc", vc.EXN_NAME.get(chunk[1], "code"))
 
 
+FRESH = {}
+
+
+def fresh_answer(o, docs):
+    """the answer of a brand-new Validator (deterministic, so memoised per call)."""
+    k = repr(o)
+    if k not in FRESH:
+        FRESH[k] = real_op(o, docs, vc.recording_validator())
+    return FRESH[k]
+
+
 def history_outcome(ops, docs):
     """(answers on one Validator, answers on fresh Validators)"""
     val = vc.recording_validator()
     one = [real_op(o, docs, val) for o in ops]
-    fresh = [real_op(o, docs, vc.recording_validator()) for o in ops]
+    fresh = [fresh_answer(o, docs) for o in ops]
     return one, fresh
 
 
@@ -442,12 +453,18 @@ def run(ctx):
     gen = vg.Gen(raw, ctx.rng)
     vers = boundary_versions(raw)
     ctx.coverage["bounds"] = vg.all_bounds(raw)
+    import time
+    T = {}
+    t0 = time.time()
     n_entries = run_entries(ctx, raw, gen)          # hunter first: it needs no model
+    T["entries"] = time.time() - t0
     if ctx.model_ok:
-        run_over(ctx, raw, vers)
-        run_vstr(ctx, vers)
-        run_oval(ctx, raw, gen, vers)
-        run_ohist(ctx, raw, gen)
+        for nm, f in (("over", lambda: run_over(ctx, raw, vers)), ("vstr", lambda: run_vstr(ctx, vers)),
+                      ("oval", lambda: run_oval(ctx, raw, gen, vers)), ("ohist", lambda: run_ohist(ctx, raw, gen))):
+            t0 = time.time()
+            f()
+            T[nm] = round(time.time() - t0, 2)
+        ctx.coverage["section_seconds"] = T
     else:
         # model unavailable: hunters only
         for v in vers:
